@@ -1,6 +1,7 @@
 import Nstd.Seq.LemmasStep
 import Nstd.Seq.LemmasNodes
 import Nstd.Seq.LemmasPtrSort
+import Nstd.Seq.LemmasRaw
 /-
   Property C03: List, Array and PoolList hold exactly the reference sequence; List::sort leaves an
   ascending permutation.
@@ -302,6 +303,31 @@ theorem append_no_realloc (s : AState) (x : Int) (es : List Int) (hd : s.data = 
   have : ¬ (es.length + 1 > cap) := by omega
   simp [AState.append, AState.reserve, AState.size, AState.elems, this, AState.push, hc]
 
+/-! ### Cell level: the loops of Array.hpp -/
+
+/-- The cell-level model of Array (RawArray.lean: a block of `_capacity` cells, each raw or constructed; the
+    copy-construct-and-destroy loop of `reserve`, the placement-new loops of `append(values, size)` /
+    `append(Array)` / `resize` / copy construction / assignment, the shifting assignment loop and the
+    destructor call of `remove`, the destructor loops of `clear` and of a shrinking `resize`, all with checked
+    accesses) run on ANY history of Array operations stays related to the `AState` model of the same history:
+    the block holds exactly the model's elements in its first `size` cells and raw cells behind them,
+    `_capacity` agrees, and no operation ever constructs outside the block, reads / assigns / destroys a raw
+    cell, or leaves a constructed cell behind `_end` (the two models reject exactly the same operations). -/
+theorem raw_refines (ops : List Op) (h : ∀ op ∈ ops, Raw.isArrayOp op = true) :
+    Raw.Rel (Raw.rrun {} ops).a0 (run {} ops).a0 ∧ Raw.Rel (Raw.rrun {} ops).a1 (run {} ops).a1 :=
+  Raw.rrun_rel ops {} {} ⟨Raw.rel_init, Raw.rel_init⟩ h
+
+/-- cell level, the shifting removal alone: removing element `i` of a block holding `es` leaves a block
+    holding `es` without its `i`-th element, the vacated last cell destroyed -/
+theorem raw_remove (r : Raw.RArr) (cap : Nat) (es : List Int) (i : Nat) (hi : i < es.length)
+    (h : Raw.Rel r { cap := cap, data := some es }) :
+    ∃ r', Raw.removeAt r i = some r' ∧ Raw.Rel r' { cap := cap, data := some (es.eraseIdx i) } := by
+  obtain ⟨r', ra, e1, e2, e3⟩ := Raw.removeAt_rel r _ h i (by simpa [AState.size, AState.elems] using hi)
+  refine ⟨r', e1, ?_⟩
+  simp only [AState.removeIt, AState.size, AState.elems, Option.getD_some, hi, if_true, Option.some.injEq] at e2
+  rw [← e2] at e3
+  simpa [List.eraseIdx_eq_take_drop_succ] using e3
+
 /-! ### Non-vacuity -/
 
 /-- the hypotheses of the sort theorems are met by `int` with `<` -/
@@ -326,5 +352,12 @@ example :
     let p := Ptr.run Ptr.init [.insert 0 5, .insert 1 7, .insert 1 6, .remove 0, .insert 2 9, .insert 0 1, .insert 0 2,
       .remove 4, .sort, .clear, .insert 0 3]
     p.size = 1 ∧ p.begin = 3 ∧ p.val 3 = 3 ∧ p.next 3 = some 0 ∧ p.prev 0 = some 3 ∧ p.nblocks = 2 ∧ p.free = some 2 := by decide
+
+/-- the cell-level Array on a concrete history (growth 3 → 7, shifting removal, shrinking resize, copy) -/
+example :
+    (Raw.rrun {} [.aappend 0 1, .aappend 0 2, .aappend 0 3, .aappend 0 4, .aremove 0 1, .aresize 0 2 0, .acopy 1]).a0.cells
+      = some [some 1, some 3, none, none, none, none, none] ∧
+    (Raw.rrun {} [.aappend 0 1, .aappend 0 2, .aappend 0 3, .aappend 0 4, .aremove 0 1, .aresize 0 2 0, .acopy 1]).a1.cells
+      = some [some 1, some 3, none, none, none, none, none] := by decide
 
 end Nstd.Seq
